@@ -155,7 +155,10 @@ def execute_op(segno, spec, ctx):
             kw.update(version=q.version, error=q.error, mask=q.mask, boost_error=False)
             if q.is_micro and kw.get('micro') is False:
                 kw.pop('micro')
-            q2 = getattr(segno, ms['fn'])(core.dec(ms['content']), **kw)
+            try:
+                q2 = getattr(segno, ms['fn'])(core.dec(ms['content']), **kw)
+            except Exception as ex:  # noqa -- the symbol exists, so re-encoding it with its own reported parameters must not be refused
+                return {'ok': {'same': False, 'a': sym_summary(q), 'b': {'raised': [type(ex).__name__, str(ex)]}}}, None
             return {'ok': {'same': matrix_bytes(q2) == matrix_bytes(q), 'a': sym_summary(q), 'b': sym_summary(q2)}}, None
         if op == 'cli':
             before = set(fs.files)
